@@ -38,6 +38,7 @@ structure Pool where
   ambiguous     : Bool                        -- behaviour depended on the iteration order of a Python set
   lost          : Bool                        -- ghost: a task hit `KeyError` in its wrapper, or `flush`/`gather_and_close`
                                               -- dropped a task from the registries that had not handed back its slot
+  resized       : Bool                        -- ghost: `pool_size` was assigned at least once
 deriving Repr, Inhabited
 
 def Pool.init (size : Cap) (simple : Option SpawnSpec) : Pool :=
@@ -45,7 +46,7 @@ def Pool.init (size : Cap) (simple : Option SpawnSpec) : Pool :=
     sem := { value := size, waiters := [] }, locked := false, closed := false, tasks := [], reqs := [],
     groups := [], running := [], cancelledR := [], ended := [], metaCancelled := [], apis := [],
     gathers := [], closedWaiters := [], emit := [], log := [], names := [], orders := [], ambiguous := false,
-    lost := false }
+    lost := false, resized := false }
 
 namespace Pool
 
@@ -267,7 +268,7 @@ def doCancelAll (p : Pool) : Pool × Res :=
 
 def doSetSize (p : Pool) (v : Int) : Pool × Res :=
   if v < 0 then (p, .err .valueError)
-  else ({ p with sem := { p.sem with value := .fin v.toNat } }, .none)
+  else ({ p with sem := { p.sem with value := .fin v.toNat }, resized := true }, .none)
 
 def gatedSpec : SpawnSpec :=
   { ws := { mode := .gated, swallow := false }, endCb := .none, cancelCb := .none, badCall := false,
